@@ -117,3 +117,44 @@ def segwit_charset(ex, K):
 def bip173_code(d):
     """Code point of the bech32 character for the 5-bit symbol d (table look-up; keeps its provenance in symbolic mode)."""
     return ord(bip173.CHARSET[d]) if type(d) is int else [ord(c) for c in bip173.CHARSET][d]
+
+
+def _lookalikes():
+    """Non-ASCII code points that Python's case mapping sends into ASCII (the way U+212A KELVIN SIGN lowers to 'k')."""
+    out = []
+    for c in range(128, 0x30000):
+        ch = chr(c)
+        lo, up = ch.lower(), ch.upper()
+        if (len(lo) == 1 and ord(lo) < 128) or (len(up) == 1 and ord(up) < 128):
+            out.append(c)
+    return out
+
+
+_LOOKALIKES = _lookalikes()
+
+
+@ob("C06", "segwit_decoder_refuses_non_ascii", quick=[dict(cp=c, K=11) for c in _LOOKALIKES], thorough=[dict(cp=c, K=k) for c in _LOOKALIKES for k in (11, 12, 16, 20)],
+    bound="strings 'bc1' / 'BC1' + K characters of the bech32 alphabet (symbolic, all lower or all upper case) in which one character at a symbolic position is replaced by a non-ASCII "
+          "code point that Python's str.lower()/upper() maps into ASCII (every such code point below U+30000; e.g. U+212A KELVIN SIGN): BIP173 refuses any character outside 33..126",
+    functions=["btclib.bech32._decode", "btclib.b32.witness_from_address"], timeout=600, min_ok=0)
+def segwit_non_ascii(ex, cp, K):
+    upper = ex.bool("upper")
+    pos = ex.concretize(ex.int("pos", 0, K - 1))
+    syms = [ex.int(f"d{i:03d}", 0, 31) for i in range(K)]
+    low = [ord(c) for c in bip173.CHARSET]
+    upp = [ord(c.upper()) for c in bip173.CHARSET]
+    if bool(upper):
+        codes = [ord("B"), ord("C"), ord("1")] + [upp[d] for d in syms]
+    else:
+        codes = [ord("b"), ord("c"), ord("1")] + [low[d] for d in syms]
+    codes[3 + pos] = cp
+    if ex.concrete:
+        s = "".join(chr(c) for c in codes)
+    else:
+        from sx.seq import SymStr
+        s = SymStr(codes)
+    try:
+        b32.witness_from_address(s)
+    except BTClibValueError:
+        return ex.refuse("BTClibValueError")
+    return {"non_ascii_string_refused": False}
